@@ -7,6 +7,7 @@ from .common import case_payload, first_diff, layout, model_for_case
 
 ID = "C10"
 LEVEL = "fault_enumeration"
+HISTORY = True  # every second shard first runs a prelude of earlier library use (history.py)
 RULE = (
     "every cut point (crash point of the byte source) of hypothesis-generated well-formed messages and streams, decoded step-wise "
     "from a counting source owned by the harness, in both modes; seven kinds of byte source (bytes, bytearray, list, iterator, "
